@@ -667,3 +667,21 @@ def zero_first_specs():
             out.append({"repr": r, "vis": "pub", "ident": "E", "enum_attrs": [],
                         "variants": [{"ident": "V%d" % i, "disc": d} for i, d in enumerate(decl)]})
     return out
+
+
+STRUCTURED_SETS = [[1, 2, 4, 8], [1, 2, 4, 8, 16, 32, 64], [0, 1, 2, 4, 8], [1, 2, 4, 16, 32], [1, 2, 8, 16], [3, 6, 9, 12, 15], [0, 10, 20, 30],
+                   [0, 10, 19, 30], [0, 10, 21, 30, 40], [-3, -2, -1, 1, 2, 3], [-3, -2, -1, 1, 3], [-4, -3, -1, 1, 3, 4], [-100, 0, 1, 100],
+                   [-120, -40, 40, 120], [-128, -1, 0, 127], [0, 127, 128, 255], [2, 3, 5, 7, 11, 13], [10, 11, 20, 21, 30, 31, 32],
+                   [5, 6, 7, 100, 101, 102, 120], [0, 64], [0, 63, 64, 65], [1, 128], [0, 1, 2, 3, 4]]
+
+
+def structured_specs(reprs=("i8", "u8", "i16", "i64", "u64")):
+    """Value sets with a pattern a fast path could key on (flags, flags with an unused bit, arithmetic and almost
+    arithmetic progressions, mirrored sets, blocks, pairs a power of two apart), under several reprs."""
+    out = []
+    for vals in STRUCTURED_SETS:
+        for r in reprs:
+            lo, hi = M.repr_domain(r)
+            if lo <= vals[0] and vals[-1] <= hi:
+                out.append(scope_spec(r, vals))
+    return out
